@@ -593,15 +593,56 @@ class Weights(Kernel):
             cx.true('weight of INT %s is not zero' % name, (f(cx) > 0) | (f(cx) < 0) if cx.symbolic else f(cx) != 0)
 
 
+PDE_LABELS = ('eps*u_tau = u_xx + (v-u) for the weighted integrands', 'v_tau = u - v for the weighted integrands')
+
+
+def residual_addends(U, W, Ut, Uxx, Wt, eps):
+    """addends of the two residuals of  eps u_tau = u_xx + (v - u),  v_tau = u - v  for u = U, v - u = W"""
+    return [[eps * Ut, -Uxx, -W], [Ut, Wt, W]]
+
+
+def family1_atoms(Uv, Wv, k):
+    """(unify, strip, F) or None: the v-integrand's sin / exp atoms mapped onto the u-integrand's, the atoms and
+    the weight mapped to 1, and the common factor weight*sin*exp"""
+    su, sw = _fn_nodes([term_of(Uv)], 'sin'), _fn_nodes([term_of(Wv)], 'sin')
+    eu, ew = _fn_nodes([term_of(Uv)], 'exp'), _fn_nodes([term_of(Wv)], 'exp')
+    if not (len(su) == len(sw) == len(eu) == len(ew) == 1):
+        return None
+    su, sw, eu, ew = su[0], sw[0], eu[0], ew[0]
+    kt = term_of(k)
+    return dict(su=su, sw=sw, eu=eu, ew=ew, unify={sw: su, ew: eu}, strip={su: T.ONE, eu: T.ONE, kt: T.ONE},
+                F=T.mul(T.mul(su, eu), kt))
+
+
 class PdeFamily(Obligation):
     """The weighted integrand pair of one family solves both equations for every value of the integration
     variable.  Integrands: the real upart*/vpart* with the common block of the call (x, tau, eps); weights: an
-    arbitrary real k with the exact relations proved by C18.weights."""
+    arbitrary real k with the exact relations proved by C18.weights.
+
+    Family 2: both integrands carry the same sin and exp atoms; z3 decides the two residuals directly.
+
+    Family 1: the u- and v-integrands are written in different variables (eta, eta' on the circle), so their
+    sin / exp atoms have syntactically different arguments.  z3 is led through the proof in steps, every step a
+    claim of its own (part 'chain' = C18.pde.family1, part 'amplitudes' = C18.pde.family1.amplitudes):
+      L1  phase of the v-integrand == phase of the u-integrand          (on the circle)
+      L2  decay exponent of the v-integrand == that of the u-integrand
+      L3  with the v-atoms replaced by the u-atoms (substitution of equals, justified by L1, L2 and function
+          congruence), every addend of a residual is  weight*sin*exp * (addend with weight, sin, exp -> 1)
+      L4  the residuals of those amplitudes vanish  (its own obligation: an encoder that never sees the
+          transcendental atoms and their axioms decides it in a second or two instead of half a minute)
+      glue  for arbitrary reals: A_i == F*M_i (i = 0,1,2) and M_0+M_1+M_2 == 0 imply A_0+A_1+A_2 == 0;
+          instantiated with A_i = addends, F = weight*sin*exp, M_i = amplitudes this is the residual of the
+          real weighted integrands (z3 cannot do this step on the instantiated terms in reasonable time: it
+          does not treat them as opaque).
+    Numeric replay: a witness against any step is replayed as the finite-difference residual of the real
+    weighted integrands (a broken lemma is reported as a violation only if the equations themselves fail at
+    the witness)."""
     uses_derivatives = True
 
-    def __init__(self, fam):
+    def __init__(self, fam, part=None):
         self.fam = fam
-        self.id = 'C18.pde.family%d' % fam
+        self.part = part or ('direct' if fam == 2 else 'chain')
+        self.id = 'C18.pde.family%d' % fam + ('.amplitudes' if self.part == 'amplitudes' else '')
         self.m = m = H.mod(TM)
         self.modules = [m]
         self.functions = ([m.upart1, m.vpart1, m.gamma_one, m.gamma_three, m.theta_one, m.theta_three] if fam == 1 else
@@ -610,96 +651,98 @@ class PdeFamily(Obligation):
                        % (' (a point of the circle eta^2+eta\'^2=1)' if fam == 1 else ''))
         self.timeout_s = 60
         self.timeout_thorough_s = 600
+        self.tag = 'family %d: ' % fam
 
-    def build(self, mk):
+    def _pair(self, mk, x, tau):
+        """(U, W): weighted u-integrand and weighted (v-u)-integrand of the family at (x, tau)"""
         m = self.m
-        x, tau, eps, k = mk('x'), mk('tau'), mk('eps'), mk('k')
+        eps, k = mk('eps'), mk('k')
         with common_block(m, x, tau, eps):
             if self.fam == 1:
                 e1, e1p = circle(mk)
-                return {'U': k * m.upart1(e1), 'W': k * m.vpart1(e1p) * jacobian(mk, e1, e1p), 'k': k}
+                return k * m.upart1(e1), k * m.vpart1(e1p) * jacobian(mk, e1, e1p)
             e = mk('eta')
             E = expm(mk, tau)
-            return {'U': k * E * m.upart2(e), 'W': -(k * E) * m.vpart2(e), 'k': k}
+            return k * E * m.upart2(e), -(k * E) * m.vpart2(e)
+
+    def build(self, mk):
+        x, tau = mk('x'), mk('tau')
+        U, W = self._pair(mk, x, tau)
+        if self.part != 'amplitudes':
+            return {'U': U, 'W': W, 'k': mk('k')}
+        if Mode.symbolic(mk):
+            at = family1_atoms(U, W, mk('k'))
+            if at is None:
+                return {'ok': 0}
+            Ut, Wt = Df.d(term_of(U), 'tau'), Df.d(term_of(W), 'tau')
+            Uxx = Df.d(Df.d(term_of(U), 'x'), 'x')
+            adds = residual_addends(U, W, SymReal(Ut), SymReal(Uxx), SymReal(Wt), mk('eps'))
+            out = {'ok': 1}
+            for i, row in enumerate(adds):
+                for j, a in enumerate(row):
+                    out['A%d%d' % (i, j)] = SymReal(T.substitute(T.substitute(term_of(a), at['unify']), at['strip']))
+            return out
+        # numeric twin: the addends of the real residual (own finite differences of the real integrands)
+        ht, hx = 1e-3 * max(abs(tau), 1e-3), 2e-3 * max(1.0, abs(x))
+        f = lambda dx, dt: self._pair(mk, x + dx, tau + dt)
+        (U1, W1), (U2, W2), (U3, W3), (U4, W4) = f(0, ht), f(0, -ht), f(0, ht / 2), f(0, -ht / 2)
+        Ut = (4 * (U3 - U4) / ht - (U1 - U2) / (2 * ht)) / 3
+        Wt = (4 * (W3 - W4) / ht - (W1 - W2) / (2 * ht)) / 3
+        v = [f(i * hx, 0)[0] for i in (-2, -1, 0, 1, 2)]
+        Uxx = (-v[0] + 16 * v[1] - 30 * v[2] + 16 * v[3] - v[4]) / (12 * hx * hx)
+        adds = residual_addends(U, W, Ut, Uxx, Wt, mk('eps'))
+        out = {'ok': 1}
+        for i, row in enumerate(adds):
+            for j, a in enumerate(row):
+                out['A%d%d' % (i, j)] = a
+        return out
 
     def domain(self, V):
         return kernel_domain(V, self.fam == 1, self.fam == 2, stale=False)
 
     def claims(self, cx):
+        tag = self.tag
+        if self.part == 'amplitudes':
+            cx.true(tag + 'each integrand is amplitude * one exp * one sin', cx['ok'] == 1)
+            if cx['ok'] == 1:
+                for i, label in enumerate(PDE_LABELS):
+                    cx.zero(tag + label + ' L4 [amplitudes]', [cx['A%d%d' % (i, j)] for j in range(3)])
+            return
         eps = cx.p('eps')
         U, W = (lambda c: c['U']), (lambda c: c['W'])
         Ut, Uxx, Wt, Wv = cx.d(U, 'tau'), d2_dx2(cx, U), cx.d(W, 'tau'), W(cx)
-        tag = 'family %d: ' % self.fam
-        pde = [(tag + 'eps*u_tau = u_xx + (v-u) for the weighted integrands', [eps * Ut, -Uxx, -Wv]),
-               (tag + 'v_tau = u - v for the weighted integrands', [Ut, Wt, Wv])]
-        if self.fam == 2:
-            # both integrands carry the same sin and exp atoms: z3 decides the residuals directly
+        pde = list(zip([tag + l for l in PDE_LABELS], residual_addends(U(cx), Wv, Ut, Uxx, Wt, eps)))
+        if self.part == 'direct':
             for label, adds in pde:
                 cx.zero(label, adds)
-        else:
-            lemma_chain(cx, tag, pde, U(cx), Wv, cx['k'], cx['k'])
-
-
-def lemma_chain(cx, tag, pde, Uv, Wv, cu, cv):
-    """Family 1: the u- and v-integrands are written in different variables, so their sin / exp atoms have
-    syntactically different arguments.  z3 is led through the proof in steps, every step a claim of its own:
-      L0  the two integrals carry the same weight (cv1 == cu1)
-      L1  phase of the v-integrand == phase of the u-integrand          (on the circle)
-      L2  decay exponent of the v-integrand == that of the u-integrand
-      L3  with the v-atoms replaced by the u-atoms (justified by L0, L1, L2), every addend of a residual is
-          weight * sin * exp * (addend with weight -> 1, sin -> 1, exp -> 1)
-      L4  the residuals of those amplitudes vanish
-      glue  for arbitrary reals: A_i == F*M_i (i = 0,1,2) and M_0+M_1+M_2 == 0 imply A_0+A_1+A_2 == 0.
-             Instantiated with A_i = addends (v-atoms replaced by the equal u-atoms: substitution of equals
-             justified by L0-L2 and function congruence), F = weight*sin*exp, M_i = amplitudes, this is the
-             residual of the real weighted integrands.  (z3 cannot do this step on the instantiated terms
-             in reasonable time: it does not treat them as opaque.)
-    Numeric replay: a witness against any step is replayed as the finite-difference residual of the real
-    weighted integrands (a broken lemma is reported as a violation only if the equations themselves fail
-    at the witness)."""
-    if not cx.symbolic:
-        for step in ('each integrand is amplitude * one exp * one sin', 'L0 the first integrals of u and of v - u carry the same weight',
-                     'L1 phases agree on the circle', 'L2 decay exponents agree on the circle'):
+            return
+        # chain (family 1)
+        steps = ['each integrand is amplitude * one exp * one sin', 'L1 phases agree on the circle',
+                 'L2 decay exponents agree on the circle']
+        if not cx.symbolic:
+            for step in steps:
+                for label, adds in pde:
+                    cx.zero(tag + step, adds)
             for label, adds in pde:
-                cx.zero(tag + step, adds)
+                for i in range(len(adds)):
+                    cx.zero(label + ' L3 addend %d = weight*sin*exp*amplitude' % i, adds)
+            return
+        at = family1_atoms(U(cx), Wv, cx['k'])
+        cx.true(tag + steps[0], at is not None)
+        if at is None:
+            return
+        cx.eq(tag + steps[1], SymReal(at['sw'].args[1]), SymReal(at['su'].args[1]),
+              when=congruence(cx, [SymReal(at['sw']), SymReal(at['su'])], names=('arccos',)))
+        cx.eq(tag + steps[2], SymReal(at['ew'].args[1]), SymReal(at['eu'].args[1]))
         for label, adds in pde:
-            for i in range(len(adds)):
-                cx.zero(label + ' L3 addend %d = weight*sin*exp*amplitude' % i, adds)
-            cx.zero(label + ' L4 [amplitudes]', adds)
-        return
-    su, sw = _fn_nodes([term_of(Uv)], 'sin'), _fn_nodes([term_of(Wv)], 'sin')
-    eu, ew = _fn_nodes([term_of(Uv)], 'exp'), _fn_nodes([term_of(Wv)], 'exp')
-    ok = len(su) == len(sw) == len(eu) == len(ew) == 1
-    cx.true(tag + 'each integrand is amplitude * one exp * one sin', ok)
-    if not ok:
-        return
-    su, sw, eu, ew = su[0], sw[0], eu[0], ew[0]
-    cx.eq(tag + 'L1 phases agree on the circle', SymReal(sw.args[1]), SymReal(su.args[1]),
-          when=congruence(cx, [SymReal(sw), SymReal(su)], names=('arccos',)))
-    cx.eq(tag + 'L2 decay exponents agree on the circle', SymReal(ew.args[1]), SymReal(eu.args[1]))
-    cut, cvt = term_of(cu), term_of(cv)
-    cx.eq(tag + 'L0 the first integrals of u and of v - u carry the same weight', cv, cu)
-    unify = {sw: su, ew: eu}
-    strip = {su: T.ONE, eu: T.ONE}
-    SE = T.mul(su, eu)
-    hyp = []
-    if cut.op != 'const':
-        if cvt is not cut:
-            unify[cvt] = cut
-        strip[cut] = T.ONE
-        SE = T.mul(SE, cut)
-    for label, adds in pde:
-        amps = []
-        for i, a in enumerate(adds):
-            a1 = T.substitute(term_of(a), unify)
-            amp = T.substitute(a1, strip)
-            cx.true(label + ' L3 addend %d = weight*sin*exp*amplitude' % i, SymBool(T.eq(a1, T.mul(SE, amp))))
-            amps.append(SymReal(amp))
-        cx.zero(label + ' L4 [amplitudes]', amps)
-    from symx.engine import sym
-    A, M, F = [sym('A%d' % i) for i in range(3)], [sym('M%d' % i) for i in range(3)], sym('F')
-    hyp = SymBool(T.land(*([T.eq(a.t, T.mul(F.t, m_.t)) for a, m_ in zip(A, M)] + [T.eq((M[0] + M[1] + M[2]).t, T.ZERO)])))
-    cx.zero(tag + 'glue: A_i = F*M_i and sum M_i = 0 imply sum A_i = 0', A, when=hyp)
+            for i, a in enumerate(adds):
+                a1 = T.substitute(term_of(a), at['unify'])
+                amp = T.substitute(a1, at['strip'])
+                cx.true(label + ' L3 addend %d = weight*sin*exp*amplitude' % i, SymBool(T.eq(a1, T.mul(at['F'], amp))))
+        from symx.engine import sym
+        A, M, F = [sym('A%d' % i) for i in range(3)], [sym('M%d' % i) for i in range(3)], sym('F')
+        hyp = SymBool(T.land(*([T.eq(a.t, T.mul(F.t, m_.t)) for a, m_ in zip(A, M)] + [T.eq((M[0] + M[1] + M[2]).t, T.ZERO)])))
+        cx.zero(tag + 'glue: A_i = F*M_i and sum M_i = 0 imply sum A_i = 0', A, when=hyp)
 
 
 class Marshak(Obligation):
@@ -878,6 +921,6 @@ class Split(Kernel):
 
 def obligations(tier):
     npieces = 1 if tier == 'quick' else 2
-    obs = [SoWave(), Weights(), PdeFamily(2), PdeFamily(1), Marshak(), Decay(), Structure('u', npieces), Structure('v', npieces)]
+    obs = [SoWave(), Weights(), PdeFamily(2), PdeFamily(1), PdeFamily(1, 'amplitudes'), Marshak(), Decay(), Structure('u', npieces), Structure('v', npieces)]
     obs += [Split(name, npieces) for w in 'uv' for name in INTEGRANDS[w]]
     return obs
